@@ -323,13 +323,15 @@ def rtc_ciq(dtname, kinds, tier):
                     pass
             if cntp.calls >= n + 4 and n > 9 and kap > 2e3:
                 grp = grp + "-minres_at_iteration_cap"
-            with settings.minres_tolerance(mtol), settings.num_contour_quadrature(Q):
+            # (every fifth instance: the setting differs from the explicit num_contour_quadrature argument, which must win for nodes AND weights)
+            setQ = Q if seed % 5 else Q + 4
+            with settings.minres_tolerance(mtol), settings.num_contour_quadrature(setQ):
                 # ---- contour_integral_quad itself
                 for inverse in (True, False):
                     for extra in ((), (2,)):  # extra leading rhs dimensions as used by the sampling code
                         b = K.zoo.rn(g, *extra, *batch, n, ncols, dtype=dt)
                         lab2 = lab + f"|inverse={int(inverse)}|extra={extra}"
-                        done, out = rec.guard(f"ciq_run/{grp}", lab2, lambda: contour_integral_quad(DenseLinearOperator(A), b, inverse=inverse, num_contour_quadrature=(Q if seed % 3 else None)))
+                        done, out = rec.guard(f"ciq_run/{grp}", lab2, lambda: contour_integral_quad(DenseLinearOperator(A), b, inverse=inverse, num_contour_quadrature=(Q if (seed % 3 or seed % 5 == 0) else None)))
                         if not done:
                             continue
                         solves, weights, no_shift, shifts = out
